@@ -339,6 +339,12 @@ def main(argv):
             fcases.append((s, w))
     for s in fam3 + progs + evprogs:
         fcases.append((s, rng.choice([0, 0, 1 + rng.below(120), 1 + rng.below(30)])))
+    # commented containers under every parent shape and pair of parents (checks/c09_contexts.py): the layouts
+    # that are only taken when a comment is present must preserve the meaning too
+    import c09_contexts as X
+    ctx_progs = [sx for sx, _, _ in X.programs(rng, 200 if tier == "quick" else 20000)]
+    for sx in ctx_progs:
+        fcases.append((sx, rng.choice([0, 0, 40, 1 + rng.below(120)])))
     fr = run_format(h, fcases)
     n_eval += len(fcases)
     # classes of the inputs (from the AST, by the harness twin of Printer.v known_classes)
@@ -375,7 +381,7 @@ def main(argv):
     # (c) the real binary on a sample (one process per file)
     ncli = 1200 if tier == "quick" else 12000
     cli_cases = ([fam[rng.below(len(fam))] for _ in range(ncli // 4)] + fam3[: ncli // 4] + progs[: ncli // 4]
-                 + evprogs[: ncli // 4])
+                 + evprogs[: ncli // 4] + ctx_progs[:: (3 if tier == "quick" else 1)])
     cli_ok = cli_bad = cli_rej = 0
     os.makedirs(c.BUILD, exist_ok=True)
     with tempfile.TemporaryDirectory(dir=c.BUILD) as td:
